@@ -4,12 +4,15 @@ open Sx
 open Conv
 open Cmds_c06
 let register (reg : string -> (Sx.t list -> Sx.t) -> unit) =
-  (* (c07_run orig auto env ops (names ...)) -> (collectors-in-collect-order collect ((called fams) ...)) on the registry reached by ops *)
+  (* (c07_run orig auto envs steps final-env-index (names ...)) ->
+     (collectors-in-collect-order collect ((called fams) ...)) on the registry reached by the history *)
   reg "c07_run" (fun a -> match a with
-    | [orig; auto; env; ops; nss] ->
-        let env = get_env env in
+    | [orig; auto; envs; steps; fin; nss] ->
+        let envs = get_envs envs in
         let orig = get_bool orig in
-        let r = (if orig then run_orig else run) env (empty_reg (get_bool auto)) (get_list get_op ops) in
+        let r = List.fold_left (fun r (env, o) -> fst ((if orig then step_orig env else step env) r o))
+                  (empty_reg (get_bool auto)) (get_steps envs steps) in
+        let env = envs.(BZ.to_int (get_int fin)) in
         let rs = if orig then restricted_orig env r else restricted env r in
         L [put_list (fun (c, _) -> put_n c) r.c2n;
            put_list put_family (collect env r);
